@@ -184,6 +184,9 @@ function deepmergeConstructor(options: any) {
 
     if (isPrimitive(source)) {
       return source;
+    } else if (!isMergeableObject(source)) {
+      // Date, RegExp, Map, Set and typed arrays are leaves: never merged key by key into a target
+      return source;
     } else if (isPrimitiveOrBuiltIn(target)) {
       return clone(source);
     } else if (sourceIsArray && targetIsArray) {
